@@ -98,7 +98,13 @@ def tree_data(with_names=True, drop=None, flat=False, hmap=False,
         nm['subclass'].pop('subB')
     if with_names:
         d['name_mapper'] = nm
-    if hmap:
+    if hmap == 'tricky':
+        # readable level names that contain the words the CSV writer
+        # looks for in its column names
+        d['hierarchy_mapper'] = {'class': 'class_label',
+                                 'subclass': 'subclass name',
+                                 'cluster': 'cluster_alias'}
+    elif hmap:
         d['hierarchy_mapper'] = dict(HIERARCHY_MAPPER)
     t = TaxonomyTree(data=d)
     if drop is not None:
